@@ -6,7 +6,7 @@
      exact  : every float produced by a sub-expression is a binary64 value (exact-rational = IEEE)
      calls  : (resolve_numeric resolve_bool glyph_bitmap resolve_sleep) outcomes *)
 From Coq Require Import ZArith QArith List Bool.
-From RV Require Import Base.Wire Base.Text Lang.PyAst Lang.PySem Lang.PyAstWire Gen.SafeCasts Lang.ConstEval Lang.ConstEnv Lang.ConstFlow Lang.ConstTuple Lang.ConstNodes.
+From RV Require Import Base.Wire Base.Text Lang.PyAst Lang.PySem Lang.PyAstWire Gen.SafeCasts Lang.ConstEval Lang.ConstEnv Lang.ConstFlow Lang.ConstTuple Lang.ConstNodes Lang.ConstCall.
 Import ListNotations.
 Open Scope Z_scope.
 
@@ -179,6 +179,28 @@ Definition run_def (prefix ps body mid post vals orc : list wv) : wv :=
   | _, _, _, _, _, _, _ => wbad
   end.
 
+(* ---- case 3: (3 in_fn prefix body first (seg ...) oracle) -> (accepted calls_ok firmware python obs-of-prefix obs-of-the-calling-sequence obs-of-the-body)
+   a parameterless function that writes module-level names, called before every seg (Lang/ConstCall.v); in_fn = 1: the
+   calling sequence is the body of another function *)
+Fixpoint dec_blocks (l : list wv) : option (list (list stmt)) :=
+  match l with
+  | [] => Some []
+  | WL b :: r => match dec_stmts b, dec_blocks r with Some x, Some xs => Some (x :: xs) | _, _ => None end
+  | _ => None end.
+Definition run_calls (in_fn : Z) (prefix body first rest orc : list wv) : wv :=
+  match dec_stmts prefix, dec_stmts body, dec_stmts first, dec_blocks rest, dec_nats orc with
+  | Some p, Some b, Some f, Some r, Some o =>
+      let inf := negb (in_fn =? 0) in
+      let t := tcalls inf p b f r in
+      WL [ wbool (match t with Some _ => true | None => false end);
+           wbool (match t with Some (_, _, _, _, fl) => fl | None => false end);
+           enc_outs (firmware_calls_outputs inf p b f r o); enc_outs (python_calls_outputs p b f r o);
+           WL (match t with Some (rp, _, _, _, _) => obs_block rp | None => [] end);
+           WL (match t with Some (_, _, rf, rs, _) => obs_block (rf ++ concat rs) | None => [] end);
+           WL (match t with Some (_, rb, _, _, _) => obs_block rb | None => [] end) ]
+  | _, _, _, _, _ => wbad
+  end.
+
 Definition run (v : wv) : wv :=
   match v with
   | WL [WI 0; WL en; ex] =>
@@ -196,5 +218,6 @@ Definition run (v : wv) : wv :=
       end
   | WL [WI 1; WL prog; WL orc] => run_env prog orc
   | WL [WI 2; WL prefix; WL ps; WL body; WL mid; WL post; WL vals; WL orc] => run_def prefix ps body mid post vals orc
+  | WL [WI 3; WI inf; WL prefix; WL body; WL first; WL rest; WL orc] => run_calls inf prefix body first rest orc
   | _ => wbad
   end.
